@@ -477,3 +477,35 @@ _prims.NAME_METHODS.setdefault('exists', lambda ev, state, node, recv: SymVal(T.
 _prims.NAME_METHODS.setdefault('unlink', lambda ev, state, node, recv: NONEVAL)
 _np.EXTRA_ATTRS.setdefault(('name', 'name'), lambda ev, state, base, node: fresh(T.NAME, 'path_name'))
 _np.EXTRA_ATTRS.setdefault(('name', 'suffix'), lambda ev, state, base, node: fresh(T.NAME, 'path_suffix'))
+
+
+# ---------------------------------------------------------------------------------------------
+# TaxonomyTree as seen by output_utils: `hierarchy` plus nodes_at_level(level)
+#   trusted: nodes_at_level(level) is a duplicate-free list (it is list(dict.keys())) and a
+#   function of (tree, level)
+# ---------------------------------------------------------------------------------------------
+T.record('OutTree', hierarchy='List[Name]', tag='Int')
+_NODES_T = T.TList(T.NAME)
+TREE_NODES = z3.Function('tree_nodes_at_level', T.sort_of(T.TRec('OutTree')), z3.IntSort(), T.sort_of(_NODES_T))
+
+
+def _nodes_at_level(tree_term, level_term, state):
+    v = SymVal(_NODES_T, TREE_NODES(tree_term, level_term))
+    i, j = z3.Int(fresh_name('ni')), z3.Int(fresh_name('nj'))
+    state.assume(seq_len(v) >= 0,
+                 z3.ForAll([i, j], z3.Implies(z3.And(0 <= i, i < j, j < seq_len(v)),
+                                              seq_at(v, i) != seq_at(v, j))))
+    return v
+
+
+@ghost.method('OutTree', 'nodes_at_level')
+def m_nodes_at_level(ev, state, node, recv, ref):
+    lv = coerce(ev.eval(state, node.args[0]), T.NAME)
+    return _nodes_at_level(recv.term, lv.term, state)
+
+
+@spec_function('tree_nodes', native=lambda tree, level: list(tree.nodes_at_level(level)))
+def s_tree_nodes(ev, state, node):
+    t = ev.eval(state, node.args[0])
+    lv = coerce(ev.eval(state, node.args[1]), T.NAME)
+    return _nodes_at_level(t.term, lv.term, state)
